@@ -151,8 +151,12 @@ func checkC06(f *fsm, final bool) {
 			return
 		}
 		if len(stray) > 0 && final {
-			h.fail("C06/data", "C06/data/deleted-stream-left-on-disk/"+kind, "node %d (restarts=%d) still has data directories of deleted streams: %v", n.idx, n.restarts, stray)
-			return
+			// A data directory without a stream is not a state the statement speaks about: it says what replay
+			// must not delete (data of streams that exist at the end) and must not bring back (deleted streams).
+			// A directory is left when a snapshot taken during replay (which leaves tombstoned streams out) is
+			// followed by a restart before the replay ends. Counted, not judged (was judged until the thorough
+			// tier showed that it demands more than the statement: DESIGN.md 10.5).
+			h.s.Count("probe.data_directory_of_deleted_stream_left")
 		}
 	}
 }
